@@ -371,6 +371,9 @@ Proof. intros st v He. cbv beta zeta. set (m := match v with VMsg (Some m) => m 
 Lemma msg_present_fn_sticky idx : sticky_fn (fun c (v : val) =>
    let m := match v with VEmb fs u => (fs, u) | _ => zero_msgv progs idx end in let '(c', m') := rec idx c m in (c', VEmb (fst m') (snd m'))).
 Proof. intros st v He. cbv beta zeta. set (m := match v with VEmb fs u => (fs, u) | _ => zero_msgv progs idx end). pose proof (rec_sticky idx st m He) as H. destruct (rec idx st m) as [c' m']. exact H. Qed.
+Lemma msg_oneof_val_fn_sticky idx : sticky_fn (fun c (v : val) =>
+   let m := match v with VOpt (Some (VEmb fs1 u1)) => (fs1, u1) | _ => zero_msgv progs idx end in let '(c', m') := rec idx c m in (c', VOpt (Some (VEmb (fst m') (snd m'))))).
+Proof. intros st v He. cbv beta zeta. set (m := match v with VOpt (Some (VEmb fs1 u1)) => (fs1, u1) | _ => zero_msgv progs idx end). pose proof (rec_sticky idx st m He) as H. destruct (rec idx st m) as [c' m']. exact H. Qed.
 Lemma msg_rep_ptr_fn_sticky idx : sticky_fn (fun c (l : list val) =>
    let '(c', m') := Dec.loop F (rec idx) c (zero_msgv progs idx) in (c', l ++ [VMsg (Some m')])).
 Proof. intros st l He. pose proof (loop_sticky (rec idx) (rec_sticky idx) F st (zero_msgv progs idx) He) as H. destruct (Dec.loop F (rec idx) st _) as [c' m']. exact H. Qed.
@@ -478,6 +481,10 @@ Proof.
     + match goal with |- context[dec_message F num ?fn st ?v] =>
         pose proof (message_inv F num fn st v) as I1; pose proof (message_adv F num fn st v Hm) as I2;
         pose proof (message_sticky F num fn (msg_ptr_fn_sticky idx) st v) as I3; destruct (dec_message F num fn st v) as [st' x] end.
+      cbn [fst] in *. auto.
+    + match goal with |- context[dec_message F num ?fn st ?v] =>
+        pose proof (message_inv F num fn st v) as I1; pose proof (message_adv F num fn st v Hm) as I2;
+        pose proof (message_sticky F num fn (msg_oneof_val_fn_sticky idx) st v) as I3; destruct (dec_message F num fn st v) as [st' x] end.
       cbn [fst] in *. auto.
     + match goal with |- context[dec_single KInt32 num st ?v] =>
         pose proof (single_inv KInt32 num st v) as I1; pose proof (single_adv KInt32 num st v Hm) as I2; pose proof (single_sticky KInt32 num st v) as I3;
@@ -653,6 +660,10 @@ Proof.
   - destruct (pf st =? num); [|exact He].
     destruct op; cbn [fst]; try apply fail_err.
     + match goal with |- context[dec_single k num st ?v] => pose proof (single_sticky k num st v He) as H; destruct (dec_single k num st v) as [st' x]; exact H end.
+    + match goal with |- context[dec_message F num ?fn st ?v] =>
+        assert (Hfn : sticky_fn fn);
+        [|pose proof (message_sticky F num fn Hfn st v He) as H; destruct (dec_message F num fn st v) as [st' x]; exact H] end.
+      intros c v Hc. cbv beta zeta. match goal with |- context[rec idx c ?m0] => pose proof (rec_sticky idx c m0 Hc) as H; destruct (rec idx c m0) as [c' m']; exact H end.
     + match goal with |- context[dec_message F num ?fn st ?v] =>
         assert (Hfn : sticky_fn fn);
         [|pose proof (message_sticky F num fn Hfn st v He) as H; destruct (dec_message F num fn st v) as [st' x]; exact H] end.
